@@ -474,8 +474,10 @@ class ActiveTagValueProvider(UserDict):
         return self.use_value(value)
 
     def get(self, category, default=None):
-        value = self.data.get(category, default)
-        return self.use_value(value)
+        if category not in self.data:
+            # -- UNKNOWN CATEGORY: Return default value as-is (never call it).
+            return default
+        return self.use_value(self.data[category])
 
     def values(self):
         for value in self.data.values(self):
@@ -515,7 +517,8 @@ class CompositeActiveTagValueProvider(ActiveTagValueProvider):
                 break
             # -- FOUND-CATEGORY or NOT-FOUND:
             if value is Unknown:
-                value = default
+                # -- UNKNOWN CATEGORY: Return default value as-is (never call it).
+                return default
 
         return self.use_value(value)
 
